@@ -134,6 +134,14 @@ theorem bytesrc_no_panic {α : Type} (p : Prog α) (input stop : List Byte) (sc 
   rw [h] at hf
   cases hf
 
+/-- C09 on the byte layer (stated here for the C09 package, not proved in this package): inside
+    the protocol and before any error, `nextPos` is an offset into the raw input. -/
+def bytesrc_pos_inv_statement : Prop :=
+  ∀ (α : Type) (p : Prog α) (input stop : List Byte), InProtocol p input stop →
+    (specRun p (LSt.init input stop)).2.err = none →
+    0 ≤ (specRun p (LSt.init input stop)).2.nextPos.1 ∧
+    (specRun p (LSt.init input stop)).2.nextPos.1 ≤ input.length
+
 /-! ## counter-examples: the statements without the protocol are false (each is replayed on the
     real parser by the harness, corpus/C07-known.txt) -/
 
@@ -179,6 +187,27 @@ theorem client_sched_indep_fails : ¬ client_sched_indep_statement := by
   have := h Bool pZsh [60, 45, 62] [] [] [2] false false
   rw [zshNum_sched_dep.1, zshNum_sched_dep.2] at this
   cases this
+
+theorem prim_sched_indep_fails : ¬ prim_sched_indep_statement := by
+  intro h
+  -- the two states after one `rune()` over `<->`, read at once and as `<-` + `>`
+  obtain ⟨v, s1, s2, e1, e2, hs⟩ :=
+    rune_sched_indep_partial (R_init [60, 45, 62] [] []) (R_init [60, 45, 62] [2] []) (by decide +kernel)
+  have hz := (h s1 s2 hs).2.2.2.1
+  have a1 := zshNum_sched_dep.1
+  have a2 := zshNum_sched_dep.2
+  unfold pZsh at a1 a2
+  simp only [Prog.run, e1, e2, bind_ok] at a1 a2
+  have o1 : outcome s1.zshNum = some true := by
+    cases hh : s1.zshNum with
+    | error f => rw [hh] at a1; simp [outcome] at a1
+    | ok x => rw [hh] at a1; simpa [outcome] using a1
+  have o2 : outcome s2.zshNum = some false := by
+    cases hh : s2.zshNum with
+    | error f => rw [hh] at a2; simp [outcome] at a2
+    | ok x => rw [hh] at a2; simpa [outcome] using a2
+  rw [o1, o2] at hz
+  cases hz
 
 /-! ## non-vacuity: the protocol is satisfiable by programs that use every lookahead primitive -/
 
